@@ -100,7 +100,7 @@ func runC04Wire(c *mon.Ctx) {
 		"that the harness's result routing ties to that id (rpc_result carries the tag read from the frame back to the caller: a caller receiving another tag means its id " +
 		"carried another request's payload); padding 12..1024 and 16-byte alignment checked per frame; distinct non-trivial = (threshold, branch gzip|plain|nocompress, size bucket, streams)")
 	c.Assume("refmodel decrypt (specification transcription), compress/gzip and crypto/aes, crypto/sha256 are the trusted base")
-	runs := c.N(25, 1500)
+	runs := c.N(25, 300)
 	for ri := 0; ri < runs; ri++ {
 		c04WireRun(c, ri)
 	}
@@ -135,7 +135,7 @@ func c04WireRun(c *mon.Ctx, ri int) {
 			case 3:
 				size = (base*2 + r.IntN(base*8)) &^ 3
 			case 4:
-				size = (16<<10 + r.IntN(c.N(48<<10, 400<<10))) &^ 3 // large: long gzip window
+				size = (16<<10 + r.IntN(c.N(48<<10, 96<<10))) &^ 3 // large: long gzip window
 			default:
 				size = r.IntN(4*base) &^ 3
 			}
